@@ -381,6 +381,16 @@ Proof.
     all: try (destruct (G7 H) as (? & ? & ?); congruence).
     all: try (apply G8; lia).
     all: try (specialize (G9 H); lia).
+  - (* EClear *)
+    apply with_head_inv in H. destruct H as (v & r & k & v' & Hl & Hf & ->).
+    destruct (idle_cap v) eqn:Hc; [discriminate|]. destruct (marked v); inversion Hf; subst; clear Hf.
+    destruct GI as [G1 G2 G3 G4 G5 G6 G7 G8 G9 G10]. rewrite Hl in *.
+    assert (Ha : active s = true) by (destruct (active s); [reflexivity|specialize (G2 eq_refl); discriminate]).
+    inversion G6; subst.
+    constructor; cbn; intros; auto; try congruence;
+      try (constructor; [exact I|assumption]);
+      try (destruct (G4 H) as (Hx & _); discriminate);
+      try (destruct (G7 H) as (? & ? & ?); congruence).
   - (* EFinish *)
     destruct (busy s) as [|b] eqn:Hb; [discriminate|].
     destruct (loops s) as [|v r] eqn:Hl; [discriminate|].
@@ -662,6 +672,14 @@ Proof.
     + inversion H; subst. cbn in *. exact (KV _ _ Hl H0).
     + inversion H; subst. cbn in *. congruence.
     + eexists. split; [reflexivity|]. exact Hm.
+  - (* EClear *)
+    apply with_head_inv in H. destruct H as (v & r & k & v' & Hl & Hf & ->).
+    destruct (loops_active _ _ _ GI Hl) as (Ha & ->).
+    destruct (idle_cap v) eqn:Hc; [discriminate|]. destruct (marked v) eqn:Hm; inversion Hf; subst; clear Hf.
+    destruct NKs as [K1 K2 K3 K4 K5 KV KC KU KR KL].
+    constructor; cbn; intros; auto; try congruence.
+    all: try (inversion H; subst; cbn in *; congruence).
+    all: try (destruct (K2 H); congruence).
   - (* EFinish *)
     destruct (busy s) as [|b] eqn:Hb; [discriminate|].
     destruct (loops s) as [|v r] eqn:Hl; [discriminate|].
@@ -713,6 +731,8 @@ Proof.
     destruct (idle_cap v); [discriminate|]. destruct (retries v); inversion Hf; subst. reflexivity.
   - apply with_head_inv in H. destruct H as (v & r & k & v' & Hl & Hf & ->).
     destruct (idle_cap v); inversion Hf; subst. reflexivity.
+  - apply with_head_inv in H. destruct H as (v & r & k & v' & Hl & Hf & ->).
+    destruct (idle_cap v); [discriminate|]. destruct (marked v); inversion Hf; subst. reflexivity.
   - destruct (busy s); [discriminate|]. destruct (loops s) as [|v r]; [discriminate|].
     destruct (idle_cap v); [discriminate|]. inv_some H. reflexivity.
   - inv_some H. reflexivity.
@@ -845,6 +865,8 @@ Proof.
     split; [left; reflexivity|].
     destruct GI as [_ _ _ _ _ G6 _ _ _ _]. rewrite Hl in G6. inversion G6; subst.
     unfold cap_ok in H1. rewrite Hc in H1. lia.
+  - apply with_head_inv in H. destruct H as (v & r & k & v' & Hl & Hf & ->).
+    destruct (idle_cap v); [discriminate|]. destruct (marked v); inversion Hf; subst. cbn. intros _ t Ht. discriminate.
   - destruct (busy s); [discriminate|]. destruct (loops s) as [|v r]; [discriminate|].
     destruct (idle_cap v); [discriminate|]. inv_some H. cbn. exact T.
   - inv_some H. cbn. intros Ha. discriminate.
@@ -1017,6 +1039,9 @@ Proof.
     destruct (idle_cap v) eqn:Hc; inversion Hf; subst; clear Hf.
     constructor; cbn; auto. intros _. rewrite count_app. cbn. split; [|lia].
     destruct Hw as (N1 & N2 & N3 & N4). unfold nowork. rewrite Hl in *. cbn in *. auto.
+  - apply with_head_inv in H. destruct H as (v & r & k & v' & Hl & Hf & ->).
+    destruct (idle_cap v); [discriminate|]. destruct (marked v); inversion Hf; subst; clear Hf.
+    constructor; cbn; auto. intro E. congruence.
   - destruct (busy s) as [|b] eqn:Hb; [discriminate|]. destruct (loops s) as [|v r] eqn:Hl; [discriminate|].
     destruct (idle_cap v); [discriminate|]. inv_some H.
     assert (Hi : idle_since s = None).
@@ -1112,6 +1137,9 @@ Proof.
     rewrite Hl in *. cons_solve CE CT. all: rewrite ?Hr in *; try lia.
   - apply with_head_inv in H. destruct H as (v & r & k & v' & Hl & Hf & ->).
     destruct (idle_cap v); inversion Hf; subst; clear Hf. rewrite Hl in *. cons_solve CE CT.
+  - apply with_head_inv in H. destruct H as (v & r & k & v' & Hl & Hf & ->).
+    destruct (idle_cap v); [discriminate|]. destruct (marked v); inversion Hf; subst; clear Hf.
+    rewrite Hl in *. cons_solve CE CT.
   - destruct (busy s); [discriminate|]. destruct (loops s) as [|v r] eqn:Hl; [discriminate|].
     destruct (idle_cap v); [discriminate|]. inv_some H. cons_solve CE CT.
   - inv_some H. constructor; cbn.
